@@ -39,8 +39,9 @@ def gen():
     calcn = calcn.replace("MODULE Calc ", "MODULE CalcN ", 1)
     mach = open(os.path.join(SPEC, "Machine.tla")).read()
     machn = mach.replace("MODULE Machine ", "MODULE MachineN ", 1).replace("EXTENDS Calc,", "EXTENDS CalcN,", 1)
-    head = "\\* GENERATED by tools/gen_nested.py from %s -- do not edit\n"
-    return {"CalcN.tla": calcn, "MachineN.tla": machn}
+    trace = open(os.path.join(SPEC, "TraceCalc.tla")).read()
+    tracen = trace.replace("MODULE TraceCalc ", "MODULE TraceCalcN ", 1).replace("EXTENDS Calc,", "EXTENDS CalcN,", 1)
+    return {"CalcN.tla": calcn, "MachineN.tla": machn, "TraceCalcN.tla": tracen}
 
 
 if __name__ == "__main__":
